@@ -185,4 +185,34 @@ example : igDecide [("a", true), ("b", false), ("c", true)] (some "d") = ["a", "
 example : (({ live := 3 } : IJ).run [.arrive, .ended, .arrive]).releases = 1 := by decide
 example : (({ live := 3 } : IJ).run [.arrive, .ended]).releases = 0 := by decide
 
+/-! ## every listed condition is evaluated (C05-13)
+
+`evalFlows` (flow.go: the probe / the conditions of the outgoing flows of a fork) goes through ALL the flows it is given, in
+their order, whatever the conditions yield: a condition that fails to evaluate is reported and counts as not true, the
+flows listed after it still get their verdict. -/
+
+theorem evalFlows_fold_keys (p : Bpmn.Model.Engine.Proc) (u : Bool) : ∀ (fls : List String) (acc : List (String × Bool)) (s : Bpmn.Model.Engine.St),
+    ((fls.foldl (fun (x : List (String × Bool) × Bpmn.Model.Engine.St) fl =>
+        let r := Bpmn.Model.Engine.evalFlow p x.2 fl u; (x.1 ++ [(fl, r.1)], r.2)) (acc, s)).1.map (·.1)) = acc.map (·.1) ++ fls := by
+  intro fls
+  induction fls with
+  | nil => intro acc s; simp
+  | cons fl rest ih =>
+    intro acc s
+    simp only [List.foldl_cons]
+    rw [ih]
+    simp
+
+/-- the verdicts are for exactly the flows that were listed, in the order they were listed -/
+theorem evalFlows_keys (p : Bpmn.Model.Engine.Proc) (s : Bpmn.Model.Engine.St) (fls : List String) (u : Bool) :
+    (Bpmn.Model.Engine.evalFlows p s fls u).1.map (·.1) = fls := by
+  have := evalFlows_fold_keys p u fls [] s
+  simpa [Bpmn.Model.Engine.evalFlows] using this
+
+/-- a true condition listed after a failing one is still found true -/
+theorem evalFlows_length (p : Bpmn.Model.Engine.Proc) (s : Bpmn.Model.Engine.St) (fls : List String) (u : Bool) :
+    (Bpmn.Model.Engine.evalFlows p s fls u).1.length = fls.length := by
+  have := congrArg List.length (evalFlows_keys p s fls u)
+  simpa using this
+
 end Bpmn.Props.C05
